@@ -219,7 +219,8 @@ PROPS = {
                        'followed by a newline), the final newline removed exactly when the input does not end in one. `str::lines` and `char::is_whitespace` are abstract (A4).',
         'bounded_part': 'BEC: the same against an independent implementation on every string in scope, plus the corollaries of the statement (idempotence; '
                         'dedent(indent(s, p)) == dedent(s) for whitespace prefixes), which are relational and not mechanically derived from the postcondition.',
-        'explanation': 'Proof: the first two sentences of the statement are the postcondition of dedent, discharged by Verus on the extracted function (three loops, '
+        'explanation': 'Known finding KF4: the idempotence corollary fails when a line\'s own text ends in a carriage return ("a\\r\\r\\n"); the margin rule itself is proved. '
+                       'Proof: the first two sentences of the statement are the postcondition of dedent, discharged by Verus on the extracted function (three loops, '
                        'std iterators through assumed std contracts). The "therefore" corollaries are cross-checked by bounded exhaustive enumeration.',
     },
     'C19': {
